@@ -23,7 +23,6 @@ const (
 	FaucetSettings                // faucetsc update-settings
 	ZcnSettings                   // zcnsc    update-global-config
 	VestingSettings               // vestingsc vestingsc-update-settings
-	numTargets
 )
 
 // Targets lists every settings function.
@@ -176,4 +175,21 @@ func SortedNames(m map[string]string) []string {
 	}
 	sort.Strings(out)
 	return out
+}
+
+// ImmutableNames lists the names of a target that the contract refuses to change through its settings function.
+func ImmutableNames(t Target) []string {
+	var out []string
+	for _, sp := range Specs(t) {
+		if sp.Immutable {
+			out = append(out, sp.Name)
+		}
+	}
+	return out
+}
+
+// MinerAddHardfork builds minersc "add_hardfork" (owner only): records hard fork `name` as active from `round` on.
+// It is here because the "demeter" fork changes what storagesc update_settings does (see Target.NeedsCommit).
+func (l *Lib) MinerAddHardfork(from *sim.Wallet, name string, round int64) *transaction.Transaction {
+	return l.Call(from, sim.MinerSC, "add_hardfork", settingsInput{Fields: map[string]string{name: fmt.Sprintf("%d", round)}}, 0)
 }
